@@ -462,3 +462,181 @@ def gr_10b(ctx, rep, modules):
                        'without looking at what it is' % (g0, extra, ' '.join(w[:6]), sorted(base)),
                        witness={'grammar': g0, 'extra': extra})
     return n
+
+
+# ---------------------------------------------------------------------------------------------------------------
+# WRAP-1  a chain of "step into the last child" tests is closed under the grammar
+def _last_child_types(ctx, t):
+    """Node types / terminals the last child of a node of type ``t`` can be, over all grammar versions."""
+    from .gr import shape_appearance
+    out = set()
+    for g in ctx.grammars:
+        if t not in g.dfas:
+            continue
+        app = shape_appearance(g)
+        for w in node_words(g, t, 7):
+            s = w[-1]
+            out |= set(app[s]) if s in g.nts else {s}
+    return out
+
+
+def _type_test(test, negated_too=False):
+    """(variable text, set of type names) for `X.type == 'T'` / `X.type in ('T', ...)` (with ``negated_too`` also for
+    `!=` / `not in`); None otherwise."""
+    if not (isinstance(test, ast.Compare) and len(test.ops) == 1):
+        return None
+    l, r, op = test.left, test.comparators[0], test.ops[0]
+    if not (isinstance(l, ast.Attribute) and l.attr == 'type'):
+        return None
+    eq = (ast.Eq, ast.NotEq) if negated_too else (ast.Eq,)
+    member = (ast.In, ast.NotIn) if negated_too else (ast.In,)
+    if isinstance(op, eq) and isinstance(r, ast.Constant) and isinstance(r.value, str):
+        return norm(l.value), {r.value}
+    if isinstance(op, member) and isinstance(r, (ast.Tuple, ast.List, ast.Set)) and r.elts and all(
+            isinstance(e, ast.Constant) and isinstance(e.value, str) for e in r.elts):
+        return norm(l.value), {e.value for e in r.elts}
+    if isinstance(op, member) and isinstance(r, ast.Name) and _RESOLVE[0] is not None:
+        vals = _RESOLVE[0](r)             # a module-level tuple of node types
+        if vals:
+            return norm(l.value), set(vals)
+    return None
+
+
+_RESOLVE = [None]
+
+
+def _unwrap_step(st):
+    """(variable, types) when ``st`` is `if X.type == T: X = X.children[-1]` (no else)."""
+    if not (isinstance(st, (ast.If, ast.While)) and not st.orelse and len(st.body) == 1):
+        return None
+    tt = _type_test(st.test)
+    b = st.body[0]
+    if tt is None or not (isinstance(b, ast.Assign) and len(b.targets) == 1 and isinstance(b.targets[0], ast.Name)):
+        return None
+    var, types = tt
+    v = b.value
+    if b.targets[0].id == var and isinstance(v, ast.Subscript) and _const_index(v.slice) == -1 \
+            and isinstance(v.value, ast.Attribute) and v.value.attr == 'children' and norm(v.value.value) == var:
+        return var, (_Loop(types) if isinstance(st, ast.While) else types)
+    return None
+
+
+class _Loop(set):
+    """types of a `while X.type in Ts: X = X.children[-1]` step: it is applied until none of Ts matches"""
+
+
+def _unwrap_helpers(mod):
+    """name -> [types of step 1, types of step 2, ...] for module-level helpers that do nothing but step into last children:
+    `def h(node): if node.type in Ts: return node.children[-1]; return node`   or
+    `def h(node): if node.type == T1: node = node.children[-1]; if node.type in T2: node = node.children[-1]; return node`."""
+    out = {}
+    for name, f in mod.funcs.items():
+        if f.cls is not None or f.outer is not None or len(f.params()) != 1:
+            continue
+        p = f.params()[0]
+        body = [st for st in f.node.body if not (isinstance(st, ast.Expr) and isinstance(st.value, ast.Constant))]
+        if len(body) == 2 and isinstance(body[0], ast.If) and not body[0].orelse and len(body[0].body) == 1:
+            tt = _type_test(body[0].test)
+            r1, r2 = body[0].body[0], body[1]
+            if tt is not None and tt[0] == p and isinstance(r1, ast.Return) and isinstance(r2, ast.Return):
+                v = r1.value
+                if isinstance(v, ast.Subscript) and _const_index(v.slice) == -1 and norm(v.value) == '%s.children' % p \
+                        and r2.value is not None and norm(r2.value) == p:
+                    out[name] = [tt[1]]
+                    continue
+        if len(body) >= 2 and isinstance(body[-1], ast.Return) and body[-1].value is not None and norm(body[-1].value) == p:
+            steps = [_unwrap_step(st) for st in body[:-1]]
+            if all(s is not None and s[0] == p for s in steps):
+                out[name] = [s[1] for s in steps]
+    return out
+
+
+def _helper_step(st, helpers):
+    """(variable, types) when ``st`` is `X = helper(Y)` with an unwrap helper."""
+    if isinstance(st, ast.Assign) and len(st.targets) == 1 and isinstance(st.targets[0], ast.Name) \
+            and isinstance(st.value, ast.Call) and isinstance(st.value.func, ast.Name) and st.value.func.id in helpers \
+            and len(st.value.args) == 1:
+        return st.targets[0].id, _Steps(helpers[st.value.func.id])
+    return None
+
+
+class _Steps(list):
+    """several consecutive steps made by one helper call"""
+
+
+def wrap_1(ctx, rep, modules=('parso/python/diff.py', 'parso/python/tree.py', 'parso/python/pep8.py', 'parso/python/errors.py',
+                              'parso/python/parser.py')):
+    rep.rule('WRAP-1', 'a chain of `if X.type == T: X = X.children[-1]` steps that ends in a test for the node types C is closed '
+                       'under the grammar: when the last child of a stepped-through T can be a node W (not in C) whose own last '
+                       'child can be in C, the chain steps through W as well (`decorated` may end in `async_funcdef`, which ends '
+                       'in `funcdef`)')
+    n_chains = 0
+    for rel in modules:
+        mod = ctx.prog.mod(rel)
+        _RESOLVE[0] = lambda e, mod=mod: tc._const_strs(ctx, mod, e)
+        helpers = _unwrap_helpers(mod)
+
+        def _step(st):
+            return _unwrap_step(st) or _helper_step(st, helpers)
+        for f in sorted(mod.funcs.values(), key=lambda f: f.qual):
+            if f.name in helpers:
+                continue
+            for parent in ast.walk(f.node):
+                for field in ('body', 'orelse', 'finalbody'):
+                    blk = getattr(parent, field, None)
+                    if not isinstance(blk, list):
+                        continue
+                    i = 0
+                    while i < len(blk):
+                        step = _step(blk[i]) if isinstance(blk[i], ast.stmt) else None
+                        if step is None:
+                            i += 1
+                            continue
+                        var = step[0]
+                        steps = list(step[1]) if isinstance(step[1], _Steps) else [step[1]]
+                        j = i + 1
+                        while j < len(blk):
+                            s2 = _step(blk[j])
+                            if s2 is None or s2[0] != var:
+                                break
+                            steps += list(s2[1]) if isinstance(s2[1], _Steps) else [s2[1]]
+                            j += 1
+                        # the first later test of X.type against constants, in this block
+                        target = None
+                        for st in blk[j:]:
+                            for sub in ast.walk(st):
+                                tt = _type_test(sub, negated_too=True) if isinstance(sub, ast.Compare) else None
+                                if tt and tt[0] == var:
+                                    target = tt[1]
+                                    break
+                            if target:
+                                break
+                        i = j
+                        if not target:
+                            continue
+                        n_chains += 1
+                        missing = None
+                        for k, types in enumerate(steps):
+                            later = set().union(*steps[k + 1:]) if steps[k + 1:] else set()
+                            if isinstance(types, _Loop):
+                                later = later | set(types)
+                            for t in sorted(types):
+                                for w in sorted(_last_child_types(ctx, t)):
+                                    if w in target or w in later or not any(w in g.dfas for g in ctx.grammars):
+                                        continue
+                                    if _last_child_types(ctx, w) & target:
+                                        missing = (t, w)
+                                        break
+                                if missing:
+                                    break
+                            if missing:
+                                break
+                        rep.ob('WRAP-1', rel, f.qual, 'chain on %s through %s before the test for %s'
+                               % (var, ' / '.join('|'.join(sorted(s)) for s in steps), '|'.join(sorted(target))), missing is None,
+                               'the last child of a %s node can be a %s node, whose last child can be one of %s: the chain does not '
+                               'step through it, so such a node is treated as "not a %s"'
+                               % (missing + ('|'.join(sorted(target)), '|'.join(sorted(target)))) if missing else '',
+                               witness=list(missing) if missing else None)
+    _RESOLVE[0] = None
+    rep.stat('wrap1_chains', n_chains)
+    rep.minimum('WRAP-1', 2)
